@@ -1278,6 +1278,27 @@ fn family_nested_contexts(run: &Run, cnt: &Cnt) -> u64 {
       "\"BAxy\"",
     ),
     ("N6", Expr::lit("G(b)"), "\"y\""),
+    // relations: a cell is evaluated in the scope of the element, not in a scope that holds the row's earlier cells
+    ("R1", Expr::Relation(vec!["a".into(), "b".into()], vec![vec![s("\"c1\""), s("a + b")], vec![s("a"), s("b + a")]]), "[{a: \"c1\", b: \"xy\"}, {a: \"x\", b: \"yx\"}]"),
+    ("R2", Expr::Relation(vec!["b".into(), "a".into()], vec![vec![s("a + \"1\""), s("b + \"2\"")], vec![s("b"), s("a")]]), "[{a: \"y2\", b: \"x1\"}, {a: \"x\", b: \"y\"}]"),
+    ("R3", Expr::Context(vec![(Some("p".to_string()), None, Expr::Relation(vec!["a".into(), "z".into()], vec![vec![s("\"k\""), s("a")]])), (Some("q".to_string()), None, s("a + b"))]), "{p: [{a: \"k\", z: \"x\"}], q: \"xy\"}"),
+    ("R4", Expr::lit("G2(b)"), "[{a: \"k\", z: \"y\"}]"),
+    // a cell naming a column that is nothing else: not a name of the element's scope
+    ("R5", Expr::Relation(vec!["u".into(), "w".into()], vec![vec![s("a"), s("u")]]), "[{u: \"x\", w: null}]"),
+    // a decision table whose output clauses are named like the inputs: an output entry reads the inputs, not the
+    // entries of the clauses before it
+    (
+      "T1",
+      Expr::Table(dmn::Table {
+        hit_policy: "UNIQUE".into(),
+        aggregation: None,
+        output_label: None,
+        inputs: vec![dmn::TableInput { expr: "a".into(), type_ref: Some("string".into()), values: None }],
+        outputs: vec![dmn::TableOutput { name: Some("a".into()), type_ref: None, values: None, default: None }, dmn::TableOutput { name: Some("b".into()), type_ref: None, values: None, default: None }],
+        rules: vec![dmn::TableRule { inputs: vec!["\"x\"".into()], outputs: vec!["\"o\"".into(), "a + b".into()] }],
+      }),
+      "{a: \"o\", b: \"xy\"}",
+    ),
   ];
   let mut m = Model::new("https://verif/c04n", "c04n");
   for n in ["a", "b"] {
@@ -1291,11 +1312,18 @@ fn family_nested_contexts(run: &Run, cnt: &Cnt) -> u64 {
     knowledge: vec![],
     logic: Expr::Context(vec![(Some("p".to_string()), None, inner_plain.clone()), (None, None, s("a"))]),
   });
+  m.bkms.push(dmn::Bkm {
+    name: "G2".into(),
+    type_ref: None,
+    params: vec![("a".to_string(), Some("string".to_string()))],
+    knowledge: vec![],
+    logic: Expr::Relation(vec!["a".into(), "z".into()], vec![vec![s("\"k\""), s("a")]]),
+  });
   for (name, logic, _) in &cases {
     m.decisions.push(dmn::Decision {
       name: name.to_string(),
       type_ref: None,
-      requires: dmn::Requires { inputs: vec!["a".into(), "b".into()], decisions: vec![], knowledge: if *name == "N6" { vec!["G".into()] } else { vec![] } },
+      requires: dmn::Requires { inputs: vec!["a".into(), "b".into()], decisions: vec![], knowledge: if *name == "N6" { vec!["G".into()] } else if *name == "R4" { vec!["G2".into()] } else { vec![] } },
       logic: Some(logic.clone()),
     });
   }
@@ -1318,7 +1346,7 @@ fn family_nested_contexts(run: &Run, cnt: &Cnt) -> u64 {
     if got != *want {
       run.violation(
         &format!("nested-contexts:{}", name),
-        &format!("decision `{}` (a boxed context nested in a boxed context, an inner entry named like an outer name) with {} gives {} but its logic gives {}", name, ctx_text(&pairs), got, want),
+        &format!("decision `{}` (a boxed context nested in a boxed context / a relation / a table with output clauses, a part named like an outer name) with {} gives {} but its logic gives {}", name, ctx_text(&pairs), got, want),
         json!({"engine":"dmn","xml":xml,"invocable":name,"ctx":pairs.iter().map(|(k,v)| json!([k,v])).collect::<Vec<_>>(),"expected":want}),
       );
     }
